@@ -260,6 +260,7 @@ def build() -> Check:
             "during a pending attempt or inside a sleep/latency, or the scenario has >=2 losses. evaluations counts scenarios; "
             "each scenario comprises tens of injected runs (sample 'runs')."
             " eof-grid / drawn 4th script element 'eof:<gap>': the connection ends by eof_received() first and connection_lost(None) 0.05 s / 1.5 s / 3 loop iterations later; the connection counts as ended only at connection_lost()."
+            " Script outcomes 'ok~T' / 'fail~T': the attempt, when cancelled, needs T = 0.7 / 1.5 / 40 s to unwind; close() must not wait for that."
         ),
         assumptions=[
             "asyncio single-threaded semantics on a SelectorEventLoop subclass whose selector advances a virtual clock; real sockets/serial transports and other loop implementations are not covered.",
